@@ -22,7 +22,7 @@ from xsim.probe import SIM
 DT = torch.float64
 
 METHODS = ["f_root", "f_equil", "f_min", "f_ode", "f_ode_tuple", "f_quad", "f_mc", "logp",
-           "f_jac", "f_hess", "g_step", "f_reent", "f_j17", "f_h17"]
+           "f_jac", "f_hess", "g_step", "f_reent", "f_j17", "f_h17", "f_mc16", "logp16", "g16"]
 
 
 # ------------------------------------------------------------- the mathematics
@@ -44,6 +44,34 @@ def h17_ref(W, b, x, oshape, c, k, s):
     val = (torch.tanh(z) ** 2).sum() * (s * s) * 0.5 + (bb * bb * xv * xv * c * c).sum() * 0.2 + \
         1.5 * (xv * xv).sum() + 0.1 * xv.sum() ** 3
     return val.reshape(oshape)
+
+
+def f16_ref(W, b, x, a, fkind):
+    """integrand family for C16: scalar / vector / tuple / constant outputs"""
+    x = x.reshape(-1)     # the 1-D quadrature sampler hands over 0-d points
+    d = x.shape[0]
+    sc = torch.cos(a * (x * x).sum()) * (1.0 + 0.1 * (b[:d] * x).sum()) + 0.05 * (W[:d, :d] @ x).sum()
+    if fkind == "scalar":
+        return sc
+    vec = torch.stack([sc, torch.sin(a * x.sum()) + 0.1 * b[0]])
+    if fkind == "vector":
+        return vec
+    if fkind == "tuple":
+        return (sc, vec * 0.5)
+    if fkind == "const":
+        return torch.full((2,), 1.75, dtype=x.dtype) + 0.0 * a
+    raise AssertionError(fkind)
+
+
+def logp16_ref(W, b, x, c):
+    x = x.reshape(-1)
+    d = x.shape[0]
+    return -(x * x).sum() * (0.5 + c * c) - 0.1 * ((W[:d, :d] @ x) ** 2).sum() + 0.2 * (b[:d] * x).sum()
+
+
+def g16_ref(x):
+    """deterministic contraction used as the caller-supplied step of mhcustom"""
+    return 0.6 * x + 0.3 * torch.cos(x.flip(0)) - 0.1
 
 
 class Maths(object):
@@ -109,6 +137,18 @@ class Maths(object):
     def f_h17(self, x, oshape, c, k, s):
         SIM.enter("f_h17", self)
         return h17_ref(self._W(), self._b(), x, oshape, c, k, s)
+
+    def f_mc16(self, x, a, z, fkind):
+        SIM.enter("f_mc16", (self, x))
+        return f16_ref(self._W(), self._b(), x, a, fkind)
+
+    def logp16(self, x, c, z):
+        SIM.enter("logp16", (self, x))
+        return logp16_ref(self._W(), self._b(), x, c)
+
+    def g16(self, x, c, z):
+        SIM.enter("g16", (self, x))
+        return g16_ref(x)
 
     def f_reent(self, y, s):
         # a user function that itself calls another functional on another method
